@@ -340,6 +340,9 @@ func (u *Unit) bytesOfStr(st *State, s Term, T types.Type) Val {
 	st.assume(fmt.Sprintf("(forall ((%s Int)) (! (=> (and (<= 0 %s) (< %s %s)) (= (select %s %s) (sat %s %s))) :pattern ((select %s %s))))", q, q, q, n, content, q, s, q, content, q))
 	u.setElemArray(st, el, r, content)
 	u.assumeOnce(st, tLe("0", n))
+	// remember which string these bytes spell (used by byte-comparison specs such as hmac.Equal)
+	u.decls.declFun("strof", []string{SInt}, SStr)
+	st.assume(tEq(tApp("strof", r), s))
 	return Val{Kind: KSlice, T: T, Arr: r, Off: "0", Len: n, Cap: n}
 }
 
